@@ -105,6 +105,12 @@ theorem skipCRLF_range {b : Buf} {i n crl : Nat} {e : Err} (h : skipCRLF b i = (
       · split at h <;> (cases h; simp; omega)
       · split at h <;> (cases h; simp; try omega)
 
+theorem skipCRLF_verdicts {b : Buf} {i n crl : Nat} {e : Err} (h : skipCRLF b i = (n, crl, e)) :
+    e = .ok ∨ e = .noCR ∨ e = .moreBytes := by
+  unfold skipCRLF at h
+  repeat' (split at h)
+  all_goals (cases h; simp)
+
 /-! ### skipLWS: one equation per branch -/
 
 theorem skipLWS_none {b : Buf} {i f : Nat} (h : b[i]? = none) : skipLWS b i f = (i, 0, .moreBytes) := by
@@ -276,5 +282,27 @@ theorem skipLWS_ok_gt (b : Buf) (i flags : Nat) {n crl : Nat} {c : UInt8} (hb : 
   · exact h'
   · have : n = i := by omega
     subst this; rw [hb] at hc'; cases hc'; rw [hc] at hl; cases hl
+
+/-- on end-of-header (without the end-of-input flag) the line end lies inside the buffer and a further byte
+    follows it -/
+theorem skipLWS_eoh_range (b : Buf) (i flags : Nat) {n crl : Nat} (h : skipLWS b i flags = (n, crl, .eoh))
+    (hf : hasFlag flags POptInputEndF = false) : i ≤ n ∧ n + crl < b.size ∧ 1 ≤ crl := by
+  fun_induction skipLWS b i flags with
+  | case1 i hb => cases h
+  | case2 i c hb hws ih => have := ih h; omega
+  | case3 i c hb hws hcr n' crl' hs hb2 hfl => rw [hf] at hfl; cases hfl
+  | case4 i c hb hws hcr n' crl' hs hb2 hfl => cases h
+  | case5 i c hb hws hcr n' crl' hs c2 hb2 hws2 ih =>
+    have := ih h; have := skipCRLF_ok_gt hs; omega
+  | case6 i c hb hws hcr n' crl' hs c2 hb2 hws2 =>
+    cases h
+    have h1 := (skipCRLF_range hs).2.2.1 rfl
+    have h2 := get?_lt hb2
+    omega
+  | case7 i c hb hws hcr n' crl' e' hne hs =>
+    cases h
+    have := skipCRLF_verdicts hs
+    simp at this
+  | case8 i c hb hws hcr => cases h
 
 end Sipsp
